@@ -1,322 +1,173 @@
 From Dnp3V Require Import Outstation.Session Outstation.SessionLemmas_c05.
 Open Scope N_scope.
 
-(* ---------- the C05 invariants ------------------------------------------------------------------------------- *)
+(* ---------- the invariant through deadlines ---------------------------------------------------------------------------- *)
 
-(* a fragment with these bytes has been transmitted; when only the configured master is listened to,
-   it went to that master *)
-Definition tx_known (cfg : ocfg) (h : list oobs) (b : list N) : Prop :=
-  exists dest, In (OTx dest b) h /\ (o_any_master cfg = false -> dest = o_master cfg).
-
-(* the remembered response, rendered over the solicited buffer as it is now, is a fragment sent before *)
-Definition sol_coh (cfg : ocfg) (h : list oobs) (s : ostate) : Prop :=
-  forall l r, s_last s = Some l -> lr_response l = Some r ->
-    tx_known cfg h (response_bytes r (s_sol_buf s)).
-
-(* fragment b went out to dest and opened the unsolicited confirm wait that is still the last one *)
-Definition opened_by (h : list oobs) (dest : N) (b : list N) (q : N) : Prop :=
-  exists h1 h2, h = h1 ++ OTx dest b :: OInfo (IEnterUnsolWait q) :: h2 /\
-                forallb not_enter_unsol h2 = true.
-
-Definition unsol_coh (cfg : ocfg) (h : list oobs) (s : ostate) : Prop :=
-  forall resp n rt dl, s_control s = CUnsolWait resp n rt dl ->
-    opened_by h (o_master cfg) (response_bytes resp (s_unsol_buf s)) (ctl_seq (r_ctl resp)) /\
-    r_fn resp = fn_unsol_response.
-
-(* in a solicited confirm wait the remembered response is the fragment whose confirmation is awaited *)
-Definition wait_coh (s : ostate) : Prop :=
-  forall se dl rs, s_control s = CSolWait se dl rs ->
-    exists l r, s_last s = Some l /\ lr_response l = Some r /\ ctl_seq (r_ctl r) = se_ecsn se mod 16.
-
-Lemma tx_known_app_l cfg h o b : tx_known cfg h b -> tx_known cfg (h ++ o) b.
-Proof. intros [d [H1 H2]]. exists d. split; [apply in_or_app; auto | exact H2]. Qed.
-
-Lemma tx_known_app_r cfg h o b : tx_known cfg o b -> tx_known cfg (h ++ o) b.
-Proof. intros [d [H1 H2]]. exists d. split; [apply in_or_app; auto | exact H2]. Qed.
-
-Lemma sol_coh_frame cfg h s s1 o :
-  s_last s1 = s_last s -> s_sol_buf s1 = s_sol_buf s -> sol_coh cfg h s -> sol_coh cfg (h ++ o) s1.
+Lemma inv_same cfg h s s1 :
+  frame s s1 -> inv cfg h s -> inv cfg h s1.
 Proof.
-  intros E1 E2 H l r Hl Hr. rewrite E2. apply tx_known_app_l. rewrite E1 in Hl. eauto.
+  intros [[Fc [Fl [Fd [Fp [Fn Fu]]]]] Fb] [[A [B [C D]]] [E1 E2]].
+  split; [split; [|split; [|split]]|split].
+  - apply sol_coh_same with (s := s); auto.
+  - intros resp n rt dl Hc. rewrite Fc in Hc. rewrite Fu. eauto.
+  - apply wait_coh_frame with (s := s); auto.
+  - apply def_ok_same with (s := s); auto.
+  - congruence.
+  - rewrite Fd, Fc. exact E2.
 Qed.
 
-Lemma opened_by_app h o dest b q :
-  forallb not_enter_unsol o = true -> opened_by h dest b q -> opened_by (h ++ o) dest b q.
+Lemma resume_pres cfg h st s s' o pre :
+  resume_at cfg st s = (s', o) ->
+  s_control s = CIdle -> stage_ok st s -> def_ok cfg s -> sol_coh cfg (h ++ pre) s ->
+  inv cfg (h ++ pre ++ o) s'.
 Proof.
-  intros Ho [h1 [h2 [-> H2]]]. exists h1, (h2 ++ o). split.
-  - rewrite <- app_assoc. reflexivity.
-  - rewrite forallb_app, H2, Ho. reflexivity.
+  unfold resume_at. intros H Hc Hst Hd Hcoh.
+  apply idle_run_pres with (h := h ++ pre) in H as [A _]; auto.
+  - rewrite <- app_assoc in A. exact A.
+  - pose proof (need_le_32 st s). lia.
 Qed.
 
-Lemma unsol_coh_frame cfg h s s1 o :
-  s_control s1 = s_control s -> s_unsol_buf s1 = s_unsol_buf s -> forallb not_enter_unsol o = true ->
-  unsol_coh cfg h s -> unsol_coh cfg (h ++ o) s1.
+Lemma rest_ok_deferred_none s :
+  rest_ok s -> (forall resp n rt dl, s_control s <> CUnsolWait resp n rt dl) -> s_deferred s = None.
 Proof.
-  intros E1 E2 Ho H resp n rt dl Hc. rewrite E1 in Hc. destruct (H _ _ _ _ Hc) as [H1 H2].
-  split; [|exact H2]. rewrite E2. apply opened_by_app; assumption.
+  intros [_ H] Hc. destruct (s_deferred s) eqn:E; [|reflexivity].
+  destruct H as [resp [n [rt [dl X]]]]; [discriminate|]. destruct (Hc _ _ _ _ X).
 Qed.
 
-Lemma unsol_coh_vacuous cfg h s :
-  (forall resp n rt dl, s_control s <> CUnsolWait resp n rt dl) -> unsol_coh cfg h s.
-Proof. intros H resp n rt dl Hc. destruct (H _ _ _ _ Hc). Qed.
+Lemma stage_ok_of_none st s : s_deferred s = None -> stage_ok st s.
+Proof. destruct st; cbn [stage_ok]; auto. Qed.
 
-Lemma wait_coh_frame s s1 :
-  s_control s1 = s_control s -> s_last s1 = s_last s -> wait_coh s -> wait_coh s1.
-Proof. intros E1 E2 H se dl rs Hc. rewrite E1 in Hc. rewrite E2. eauto. Qed.
-
-(* ---------- handle_one_request_from_idle ----------------------------------------------------------------------- *)
-
-Definition confirm_series (se : option series) (r : response) : option series :=
-  match se with
-  | None => if ctl_con (r_ctl r) then Some {| se_ecsn := ctl_seq (r_ctl r); se_fin := true |} else None
-  | x => x
-  end.
-
-Definition finish_fn (cfg : ocfg) (from seq : N) (bytes : list N) (o0 : list oobs)
-           (s1 : ostate) (resp : option response) (se : option series) (repeat : bool) (o1 : list oobs)
-  : ostate * list oobs :=
-  match resp with
-  | Some r =>
-      if repeat then
-        let o2 := repeat_solicited s1 from r in
-        let se' := confirm_series se r in
-        let s2 := upd_last s1 (mk_last seq bytes (Some r) se') in
-        match se' with
-        | Some x => (upd_control s2 (CSolWait x (confirm_deadline cfg s2) RStep2), o0 ++ o1 ++ o2 ++ [OInfo (IEnterSolWait (se_ecsn x))])
-        | None => (s2, o0 ++ o1 ++ o2)
-        end
-      else
-        let '(s2, r', o2) := write_solicited s1 from r in
-        let se' := confirm_series se r' in
-        let s3 := upd_last s2 (mk_last seq bytes (Some r') se') in
-        match se' with
-        | Some x => (upd_control s3 (CSolWait x (confirm_deadline cfg s3) RStep2), o0 ++ o1 ++ o2 ++ [OInfo (IEnterSolWait (se_ecsn x))])
-        | None => (s3, o0 ++ o1 ++ o2)
-        end
-  | None => (upd_last s1 (mk_last seq bytes None se), o0 ++ o1)
-  end.
-
-(* SelectState::update_frame_id on a repeated request *)
-Definition touch_select (s : ostate) (frame_id : N) : ostate :=
-  match s_select s with
-  | Some sel =>
-      if (ss_frame_id sel + 1) mod 4294967296 =? frame_id
-      then upd_select s (Some {| ss_seq := ss_seq sel; ss_frame_id := frame_id;
-                                 ss_time := ss_time sel; ss_objects := ss_objects sel |})
-      else s
-  | None => s
-  end.
-
-Lemma touch_select_frame s fid : frame s (touch_select s fid).
+Lemma fire_deadline_pres cfg h s s' o :
+  fire_deadline cfg s = (s', o) -> inv cfg h s -> inv cfg (h ++ o) s'.
 Proof.
-  unfold touch_select. destruct (s_select s) as [sel|]; [|apply frame_refl].
-  destruct (_ =? _); [frame_tac | apply frame_refl].
+  unfold fire_deadline. intros H Hinv.
+  destruct (s_control s) as [|se dl r|resp is_null retries dl] eqn:Ec;
+    pose proof Hinv as [[A [B [C D]]] [E1 E2]].
+  - apply resume_pres with (h := h) (pre := []) in H; auto.
+    + apply stage_ok_of_none. apply rest_ok_deferred_none; [split; auto|]. intros. rewrite Ec. discriminate.
+    + rewrite app_nil_r. exact A.
+  - destruct (resume_at cfg (stage_of r) (upd_control s CIdle)) as [s1 o1] eqn:E. inv_pair H.
+    apply resume_pres with (h := h) (pre := [OInfo (ISolTimeout (se_ecsn se)); ODb DbReset]) in E; auto.
+    + apply stage_ok_of_none. psimpl. apply rest_ok_deferred_none; [split; auto|]. intros. rewrite Ec. discriminate.
+    + apply sol_coh_frame with (s := s); auto.
+  - match type of H with (if ?c then _ else _) = _ => destruct c end.
+    + inv_pair H. unfold repeat_unsolicited. split; [split; [|split; [|split]]|split].
+      * apply sol_coh_frame with (s := s); auto.
+      * intros resp' n rt' dl' Hc. psimpl_in Hc. inversion Hc; subst. psimpl.
+        destruct (B _ _ _ _ Ec) as [B1 B2]. split; [|exact B2]. apply opened_by_app; [reflexivity | exact B1].
+      * apply wait_coh_not_wait. intros. psimpl. discriminate.
+      * exact D.
+      * exact E1.
+      * intros _. psimpl. eauto.
+    + destruct (end_unsol cfg s is_null UrTimeout) as [[s1 ns] o1] eqn:Ee.
+      apply end_unsol_spec in Ee as [[[Fc [Fl [Fd [Fp [Fn Fu]]]]] Fb] Se].
+      psimpl_in Fc. psimpl_in Fl. psimpl_in Fd. psimpl_in Fp. psimpl_in Fn. psimpl_in Fb.
+      destruct (resume_at cfg (St3 ns) s1) as [s2 o2] eqn:E. inv_pair H.
+      apply resume_pres with (h := h) (pre := [OInfo (IUnsolTimeout (ctl_seq (r_ctl resp)) false)] ++ o1) in E; auto.
+      * cbn [stage_ok]. intros X. congruence.
+      * apply def_ok_same with (s := s); auto.
+      * apply sol_coh_frame with (s := s); auto.
 Qed.
 
-Lemma handle_from_idle_unfold cfg s from bc bytes d frame_id :
-  handle_from_idle cfg s from bc bytes d frame_id =
-  match to_treq cfg from d with
-  | TqNone => (s, [])
-  | TqError seq => write_error_response s from bc seq
-  | TqRequest ctl fn obj =>
-      let seq := ctl_seq ctl in
-      let o0 := [OInfo (IIdleRequest fn seq)] in
-      let finish := finish_fn cfg from seq bytes o0 in
-      match classify s bc bytes ctl fn obj with
-      | FtMalformed iin2 => finish s (Some (empty_solicited seq iin2)) None false []
-      | FtNewRead _ _ | FtRepeatRead _ _ _ =>
-          let '(s1, r, se, o1) := format_first_read_response s seq in finish s1 (Some r) se false o1
-      | FtNewNonRead hdrs =>
-          let '(s1, r, o1) := handle_non_read cfg s fn seq frame_id bytes hdrs in finish s1 r None false o1
-      | FtRepeatNonRead last =>
-          finish (touch_select s frame_id) last None true []
-      | FtBroadcast m =>
-          let '(s1, o1) := process_broadcast cfg s m frame_id ctl fn bytes obj in (s1, o0 ++ o1)
-      | FtSolConfirm _ | FtUnsolConfirm _ => (s, o0)
-      end
-  end.
-Proof. reflexivity. Qed.
+Lemma inv_upd_now cfg h s t : inv cfg h s -> inv cfg h (upd_now s t).
+Proof. apply inv_same. frame_tac. Qed.
 
-Lemma to_treq_from cfg from d ctl fn obj :
-  to_treq cfg from d = TqRequest ctl fn obj -> o_any_master cfg = false -> from = o_master cfg.
+Lemma advance_pres cfg : forall f s target h s' o,
+  advance f cfg s target = (s', o) -> inv cfg h s -> inv cfg (h ++ o) s'.
 Proof.
-  unfold to_treq. intros H Ha. rewrite Ha in H. cbn [negb andb] in H.
-  destruct (from =? o_master cfg) eqn:E; [apply N.eqb_eq in E; exact E | discriminate].
-Qed.
-
-Lemma to_treq_from_err cfg from d q :
-  to_treq cfg from d = TqError q -> o_any_master cfg = false -> from = o_master cfg.
-Proof.
-  unfold to_treq. intros H Ha. rewrite Ha in H. cbn [negb andb] in H.
-  destruct (from =? o_master cfg) eqn:E; [apply N.eqb_eq in E; exact E | discriminate].
-Qed.
-
-(* what handle_from_idle leaves alone, whatever the fragment *)
-Definition idle_frame (s s1 : ostate) : Prop :=
-  s_deferred s1 = s_deferred s /\ s_pending s1 = s_pending s /\ s_notify s1 = s_notify s /\
-  s_unsol_buf s1 = s_unsol_buf s /\
-  (s_control s1 = s_control s \/ exists se dl, s_control s1 = CSolWait se dl RStep2).
-
-Lemma frameB_idle_frame s s1 : frameB s s1 -> idle_frame s s1.
-Proof. unfold frameB, idle_frame. intuition. Qed.
-
-Lemma finish_fn_spec cfg h from seq bytes o0 s1 resp se repeat o1 s2 o :
-  finish_fn cfg from seq bytes o0 s1 resp se repeat o1 = (s2, o) ->
-  (o_any_master cfg = false -> from = o_master cfg) ->
-  (forall x r, se = Some x -> resp = Some r -> ctl_seq (r_ctl r) = se_ecsn x mod 16) ->
-  s_control s1 = CIdle ->
-  forallb req_obs o0 = true -> forallb req_obs o1 = true ->
-  sol_coh cfg (h ++ o) s2 /\ wait_coh s2 /\ idle_frame s1 s2 /\ forallb req_obs o = true.
-Proof.
-  unfold finish_fn. intros H Hfrom Hse Hc S0 S1.
-  destruct resp as [r|].
-  2:{ inv_pair H. split; [|split; [|split]].
-      - intros l r Hl Hr. psimpl_in Hl. inversion Hl; subst l. discriminate.
-      - intros x dl rs Hx. psimpl_in Hx. congruence.
-      - unfold idle_frame; psimpl; auto 10.
-      - fb. }
-  assert (Hws : forall x r', confirm_series se r' = Some x -> ctl_seq (r_ctl r') = ctl_seq (r_ctl r) ->
-                ctl_seq (r_ctl r') = se_ecsn x mod 16).
-  { intros x r' Hx Hq. unfold confirm_series in Hx. destruct se as [y|].
-    - inversion Hx; subst y. rewrite Hq. eauto.
-    - destruct (ctl_con (r_ctl r')); inversion Hx; subst x. cbn [se_ecsn]. unfold ctl_seq. lia. }
-  destruct repeat.
-  - cbv zeta in H. unfold repeat_solicited in H.
-    assert (Hk : forall s3 o4, s_last s3 = mk_last seq bytes (Some r) (confirm_series se r) ->
-                 s_sol_buf s3 = s_sol_buf s1 ->
-                 sol_coh cfg (h ++ o0 ++ o1 ++ [OTx from (response_bytes r (s_sol_buf s1))] ++ o4) s3).
-    { intros s3 o4 Hl Hb l r0 Hl0 Hr0. rewrite Hl in Hl0. inversion Hl0; subst l. cbn [lr_response] in Hr0.
-      inversion Hr0; subst r0. rewrite Hb. exists from. split; [|exact Hfrom].
-      rewrite ?in_app_iff. cbn [In]. tauto. }
-    destruct (confirm_series se r) as [x|] eqn:Ecs; inv_pair H.
-    + split; [|split; [|split]].
-      * apply (Hk _ [OInfo (IEnterSolWait (se_ecsn x))]); psimpl; auto.
-      * intros se0 dl rs Hx. psimpl_in Hx. inversion Hx; subst. psimpl.
-        eexists _, r. split; [reflexivity|]. split; [reflexivity|]. apply Hws; auto.
-      * unfold idle_frame; psimpl. repeat split; eauto.
-      * fb.
-    + split; [|split; [|split]].
-      * specialize (Hk (upd_last s1 (mk_last seq bytes (Some r) None)) []). rewrite app_nil_r in Hk.
-        apply Hk; psimpl; auto.
-      * intros se0 dl rs Hx. psimpl_in Hx. congruence.
-      * unfold idle_frame; psimpl. repeat split; eauto.
-      * fb.
-  - destruct (write_solicited s1 from r) as [[s3 r'] o2] eqn:Ew.
-    apply write_solicited_spec in Ew as [F [_ [_ [Hq [o' [-> S']]]]]].
-    cbv zeta in H.
-    assert (Hk : forall s4 o4, s_last s4 = mk_last seq bytes (Some r') (confirm_series se r') ->
-                 s_sol_buf s4 = s_sol_buf s3 ->
-                 sol_coh cfg (h ++ o0 ++ o1 ++ (o' ++ [OTx from (response_bytes r' (s_sol_buf s3))]) ++ o4) s4).
-    { intros s4 o4 Hl Hb l r0 Hl0 Hr0. rewrite Hl in Hl0. inversion Hl0; subst l. cbn [lr_response] in Hr0.
-      inversion Hr0; subst r0. rewrite Hb. exists from. split; [|exact Hfrom].
-      rewrite ?in_app_iff. cbn [In]. tauto. }
-    assert (Sreq : forallb req_obs o' = true) by (apply (forallb_imp _ _ _ dbq_req S')).
-    destruct F as [[Fc [Fl [Fd [Fp [Fn Fu]]]]] Fb].
-    destruct (confirm_series se r') as [x|] eqn:Ecs; inv_pair H.
-    + split; [|split; [|split]].
-      * apply Hk; psimpl; auto.
-      * intros se0 dl rs Hx. psimpl_in Hx. inversion Hx; subst. psimpl.
-        eexists _, r'. split; [reflexivity|]. split; [reflexivity|]. apply Hws; auto.
-      * unfold idle_frame; psimpl. repeat split; eauto.
-      * fb.
-    + split; [|split; [|split]].
-      * specialize (Hk (upd_last s3 (mk_last seq bytes (Some r') None)) []). rewrite app_nil_r in Hk.
-        apply Hk; psimpl; auto.
-      * intros se0 dl rs Hx. psimpl_in Hx. congruence.
-      * unfold idle_frame; psimpl. repeat split; auto.
-      * fb.
-Qed.
-
-Lemma wait_coh_not_wait s : (forall se dl rs, s_control s <> CSolWait se dl rs) -> wait_coh s.
-Proof. intros H se dl rs Hc. destruct (H _ _ _ Hc). Qed.
-
-Lemma idle_frame_trans_l s s1 s2 : frameB s s1 -> idle_frame s1 s2 -> idle_frame s s2.
-Proof. unfold frameB, idle_frame. intros [A [B [C [D [E F]]]]] [G [I [J [K L]]]]. rewrite <- A. intuition congruence. Qed.
-
-Lemma handle_from_idle_pres cfg h s from bc bytes d fid s1 o :
-  handle_from_idle cfg s from bc bytes d fid = (s1, o) ->
-  s_control s = CIdle ->
-  sol_coh cfg h s ->
-  sol_coh cfg (h ++ o) s1 /\ wait_coh s1 /\ idle_frame s s1 /\ forallb req_obs o = true.
-Proof.
-  rewrite handle_from_idle_unfold. intros H Hc Hcoh.
-  assert (Hsame : forall s', frame s s' -> forall o', forallb req_obs o' = true ->
-            sol_coh cfg (h ++ o') s' /\ wait_coh s' /\ idle_frame s s' /\ forallb req_obs o' = true).
-  { intros s' F o' So. pose proof F as [[Fc [Fl _]] Fb]. split; [|split; [|split]].
+  induction f as [|f IH]; intros s target h s' o H Hinv; cbn [advance] in H.
+  { inv_pair H. apply inv_upd_now. destruct Hinv as [[A [B [C D]]] E]. split; [split; [|split; [|split]]|]; auto.
     - apply sol_coh_frame with (s := s); auto.
-    - apply wait_coh_not_wait. intros se dl rs. rewrite Fc, Hc. discriminate.
-    - apply frameB_idle_frame, frame_frameB, F.
-    - exact So. }
-  destruct (to_treq cfg from d) as [|q|ctl fn obj] eqn:Et.
-  - inv_pair H. apply Hsame; [apply frame_refl | reflexivity].
-  - apply write_error_response_spec in H as [F [S _]]. apply Hsame; assumption.
-  - pose proof (to_treq_from _ _ _ _ _ _ Et) as Hfrom. cbv zeta in H.
-    assert (S0 : forallb req_obs [OInfo (IIdleRequest fn (ctl_seq ctl))] = true) by reflexivity.
-    destruct (classify s bc bytes ctl fn obj) as [iin2|hdrs rh|resp hdrs rh|hdrs|resp|m|q|q] eqn:Ecl.
-    + eapply finish_fn_spec in H; eauto. discriminate.
-    + destruct (format_first_read_response s (ctl_seq ctl)) as [[[s2 r] se] o1] eqn:Ef.
-      apply format_first_read_response_spec in Ef as [F [S [Q1 Q2]]].
-      eapply finish_fn_spec with (h := h) in H; eauto.
-      * destruct H as [A [B [C D]]]. split; [exact A|]. split; [exact B|]. split; [|exact D]. eapply idle_frame_trans_l; eauto.
-      * intros x r0 Hx Hr. inversion Hr; subst r0. rewrite (Q2 _ Hx). exact Q1.
-      * destruct F as [Fc _]. congruence.
-      * apply (forallb_imp _ _ _ dbq_req S).
-    + destruct (format_first_read_response s (ctl_seq ctl)) as [[[s2 r] se] o1] eqn:Ef.
-      apply format_first_read_response_spec in Ef as [F [S [Q1 Q2]]].
-      eapply finish_fn_spec with (h := h) in H; eauto.
-      * destruct H as [A [B [C D]]]. split; [exact A|]. split; [exact B|]. split; [|exact D]. eapply idle_frame_trans_l; eauto.
-      * intros x r0 Hx Hr. inversion Hr; subst r0. rewrite (Q2 _ Hx). exact Q1.
-      * destruct F as [Fc _]. congruence.
-      * apply (forallb_imp _ _ _ dbq_req S).
-    + destruct (handle_non_read cfg s fn (ctl_seq ctl) fid bytes hdrs) as [[s2 r] o1] eqn:Ef.
-      apply handle_non_read_spec in Ef as [F S].
-      eapply finish_fn_spec with (h := h) in H; eauto.
-      * destruct H as [A [B [C D]]]. split; [exact A|]. split; [exact B|]. split; [|exact D]. eapply idle_frame_trans_l; eauto.
-      * discriminate.
-      * destruct F as [Fc _]. congruence.
-      * apply (forallb_imp _ _ _ exec_req S).
-    + pose proof (touch_select_frame s fid) as F.
-      eapply finish_fn_spec with (h := h) in H; eauto.
-      * destruct H as [A [B [C D]]]. split; [exact A|]. split; [exact B|]. split; [|exact D]. eapply idle_frame_trans_l; eauto. apply frame_frameB, F.
-      * discriminate.
-      * destruct F as [[Fc _] _]. congruence.
-    + destruct (process_broadcast cfg s m fid ctl fn bytes obj) as [s2 o1] eqn:Ef.
-      apply process_broadcast_spec in Ef as [F S]. inv_pair H. apply Hsame; [exact F|]. fb.
-    + inv_pair H. apply Hsame; [apply frame_refl | reflexivity].
-    + inv_pair H. apply Hsame; [apply frame_refl | reflexivity].
+    - apply unsol_coh_frame with (s := s); auto. }
+  assert (Hstay : inv cfg (h ++ []) (upd_now s target)) by (rewrite app_nil_r; apply inv_upd_now; exact Hinv).
+  destruct (next_deadline cfg s) as [d|]; [|inv_pair H; exact Hstay].
+  destruct (d <=? target)%Z; [|inv_pair H; exact Hstay].
+  destruct (fire_deadline cfg (upd_now s (Z.max d (s_now s)))) as [s1 o1] eqn:Ef.
+  destruct (advance f cfg s1 target) as [s2 o2] eqn:Ea. inv_pair H.
+  apply fire_deadline_pres with (h := h ++ [OAt (Z.max d (s_now s))]) in Ef.
+  - apply IH with (h := (h ++ [OAt (Z.max d (s_now s))]) ++ o1) in Ea; auto.
+    rewrite <- !app_assoc in Ea. exact Ea.
+  - apply inv_upd_now. destruct Hinv as [[A [B [C D]]] E]. split; [split; [|split; [|split]]|]; auto.
+    + apply sol_coh_frame with (s := s); auto.
+    + apply unsol_coh_frame with (s := s); auto.
 Qed.
 
-(* ---------- one fragment in the unsolicited confirm wait ----------------------------------------------------------- *)
+(* ---------- a received fragment ------------------------------------------------------------------------------------------- *)
 
-Definition wait_frame (s s1 : ostate) : Prop :=
-  s_control s1 = s_control s /\ s_pending s1 = s_pending s /\ s_notify s1 = s_notify s /\
-  s_unsol_buf s1 = s_unsol_buf s.
-
-Lemma unsol_wait_fragment_pres cfg h s resp from bc bytes d fid s1 res o :
-  unsol_wait_fragment cfg s resp from bc bytes d fid = (s1, res, o) ->
-  sol_coh cfg h s ->
-  sol_coh cfg (h ++ o) s1 /\ wait_frame s s1 /\ forallb req_obs o = true /\
-  (res <> None -> s_deferred s1 = s_deferred s \/ s_deferred s1 = None).
+Lemma sol_wait_fragment_spec cfg s se dl from bc bytes d out o :
+  sol_wait_fragment cfg s se dl from bc bytes d = (out, o) ->
+  forallb bg o = true /\ forallb not_enter_unsol o = true /\
+  (forall rt, out = SoConfirmed rt -> rt = from /\ (o_any_master cfg = false -> from = o_master cfg)).
 Proof.
-  unfold unsol_wait_fragment. intros H Hcoh.
-  assert (Hsame : forall s' o', s_last s' = s_last s -> s_sol_buf s' = s_sol_buf s -> wait_frame s s' ->
-            forallb req_obs o' = true ->
-            (res <> None -> s_deferred s' = s_deferred s \/ s_deferred s' = None) ->
-            sol_coh cfg (h ++ o') s' /\ wait_frame s s' /\ forallb req_obs o' = true /\
-            (res <> None -> s_deferred s' = s_deferred s \/ s_deferred s' = None)).
-  { intros s' o' Fl Fb Fw So Hd. split; [|auto]. apply sol_coh_frame with (s := s); auto. }
+  unfold sol_wait_fragment. intros H.
   destruct (to_treq cfg from d) as [|q|ctl fn obj] eqn:Et.
-  - inv_pair H. apply Hsame; auto; try reflexivity. unfold wait_frame; auto.
-  - destruct (write_error_response (upd_deferred s None) from bc q) as [s2 o2] eqn:Ew.
-    apply write_error_response_spec in Ew as [[[Fc [Fl [Fd [Fp [Fn Fu]]]]] Fb] [S _]]. inv_pair H.
-    psimpl_in Fc. psimpl_in Fl. psimpl_in Fp. psimpl_in Fn. psimpl_in Fu. psimpl_in Fb.
-    apply Hsame; auto. unfold wait_frame; auto.
+  - inv_pair H. splits; auto. discriminate.
+  - inv_pair H. splits; auto. discriminate.
   - pose proof (to_treq_from _ _ _ _ _ _ Et) as Hfrom.
-    destruct (classify s bc bytes ctl fn obj) as [iin2|hdrs rh|resp0 hdrs rh|hdrs|resp0|m|q|q] eqn:Ecl.
-    + destruct (write_solicited (upd_deferred s None) from (empty_solicited (ctl_seq ctl) iin2)) as [[s2 r2] o2] eqn:Ew.
-      apply write_solicited_spec in Ew as [[[Fc [Fl [Fd [Fp [Fn Fu]]]]] Fb] [_ [_ [_ [o' [-> S]]]]]]. inv_pair H.
-      psimpl_in Fc. psimpl_in Fl. psimpl_in Fp. psimpl_in Fn. psimpl_in Fu. psimpl_in Fb.
-      apply Hsame; auto. { unfold wait_frame; auto. }
-      rewrite forallb_app, (forallb_imp _ _ _ dbq_req S). reflexivity.
-    + inv_pair H. apply Hsame; auto; try reflexivity. unfold wait_frame; psimpl; auto.
-      Show. all: admit. Admitted.
+    destruct (classify s bc bytes ctl fn obj) as [iin2|hdrs rh|resp hdrs rh|hdrs|resp|m|q|q];
+      try (inv_pair H; splits; auto; discriminate).
+    + inv_pair H. unfold repeat_solicited. destruct resp; splits; auto; discriminate.
+    + destruct (q =? se_ecsn se); inv_pair H; splits; auto; try discriminate.
+      intros rt X. inversion X; subst. auto.
+Qed.
+
+Lemma inv_sol_coh_app cfg h s o : sol_coh cfg h s -> sol_coh cfg (h ++ o) s.
+Proof. apply sol_coh_frame; reflexivity. Qed.
+
+Lemma on_rx_pres cfg h s from bc bytes d s' o :
+  on_rx cfg s from bc bytes d = (s', o) -> inv cfg h s -> inv cfg (h ++ o) s'.
+Proof.
+  unfold on_rx. cbv zeta. intros H Hinv.
+  set (fid := (s_frame_id s + 1) mod 4294967296) in *.
+  set (s0 := upd_frame_id s fid) in *.
+  assert (Hinv0 : inv cfg h s0) by (apply inv_same with (s := s); [subst s0; frame_tac | exact Hinv]).
+  clearbody s0. clear Hinv.
+  destruct (s_control s0) as [|se dl r|resp is_null retries dl] eqn:Ec;
+    pose proof Hinv0 as [[A [B [C D]]] [E1 E2]].
+  - (* idle *)
+    unfold idle_loop in H. change (4 * 8)%nat with 32%nat in H. fold (resume_at cfg St1) in H.
+    apply resume_pres with (h := h) (pre := []) in H; auto.
+    + apply stage_ok_of_none. psimpl. apply rest_ok_deferred_none; [split; auto|]. intros ? ? ? ? X. rewrite Ec in X. discriminate.
+    + rewrite app_nil_r. apply sol_coh_same with (s := s0); auto.
+  - (* solicited confirm wait *)
+    assert (Hdn : s_deferred s0 = None).
+    { apply rest_ok_deferred_none; [split; auto|]. intros ? ? ? ? X. rewrite Ec in X. discriminate. }
+    destruct (sol_wait_fragment cfg s0 se dl from bc bytes d) as [out o1] eqn:Ew.
+    apply sol_wait_fragment_spec in Ew as [S1 [S2 Hrt]].
+    destruct out as [dl'|rt|].
+    + inv_pair H. split; [split; [|split; [|split]]|split]; psimpl; auto.
+      * apply sol_coh_frame with (s := s0); auto.
+      * apply unsol_coh_vacuous. intros. psimpl. discriminate.
+      * intros se0 dl0 rs0 X. psimpl_in X. inversion X; subst. psimpl. eapply C; eauto.
+      * intros X. congruence.
+    + destruct (Hrt _ eq_refl) as [-> Hfrom].
+      destruct (se_fin se).
+      * destruct (resume_at cfg (stage_of r) (upd_control (upd_last_bcast s0 None) CIdle)) as [s2 o2] eqn:E.
+        inv_pair H.
+        apply resume_pres with (h := h) (pre := o1 ++ [ODb DbClearWritten]) in E; auto.
+        -- rewrite <- !app_assoc in E. exact E.
+        -- apply stage_ok_of_none. psimpl. exact Hdn.
+        -- apply sol_coh_frame with (s := s0); auto.
+      * destruct (format_read_response (upd_last_bcast s0 None) false (seq16_next (se_ecsn se)) 0)
+          as [[[s2 rsp] next] o2] eqn:Ef.
+        destruct (write_solicited s2 from rsp) as [[s3 rsp'] o3] eqn:Es.
+        apply format_read_response_spec in Ef as [[Fc [Fl [Fd [Fp [Fn Fu]]]]] [Sf [Q1 Q2]]].
+        apply write_solicited_spec in Es as [[[Gc [Gl [Gd [Gp [Gn Gu]]]]] Gb] [_ [_ [Hq [o' [-> Ss]]]]]].
+        psimpl_in Fc. psimpl_in Fl. psimpl_in Fd. psimpl_in Fp. psimpl_in Fn. psimpl_in Fu.
+        destruct (C _ _ _ Ec) as [l0 [r0 [Hl0 [Hr0 _]]]].
+        assert (Hl3 : s_last s3 = Some l0) by congruence. rewrite Hl3 in H.
+        set (s4 := upd_last s3 (Some {| lr_seq := lr_seq l0; lr_bytes := lr_bytes l0;
+                                        lr_response := Some rsp'; lr_series := lr_series l0 |})) in *.
+        assert (Hcoh4 : forall o4, sol_coh cfg (h ++ o1 ++ [ODb DbClearWritten] ++ o2 ++ (o' ++ [OTx from (response_bytes rsp' (s_sol_buf s3))]) ++ o4) s4).
+        { intros o4 l rx Hl Hr. subst s4. psimpl_in Hl. inversion Hl; subst l. cbn [lr_response] in Hr.
+          inversion Hr; subst rx. psimpl. exists from. split; [|exact Hfrom].
+          rewrite ?in_app_iff. cbn [In]. tauto. }
+        destruct next as [n|].
+        -- inv_pair H. specialize (Hcoh4 []). rewrite app_nil_r in Hcoh4.
+           split; [split; [exact Hcoh4|split; [|split]]|split]; subst s4; psimpl.
+           ++ apply unsol_coh_vacuous. intros. psimpl. discriminate.
+           ++ intros se0 dl0 rs0 X. psimpl_in X. inversion X; subst. psimpl.
+              eexists _, rsp'. split; [reflexivity|]. split; [reflexivity|].
+              rewrite Hq, Q1, (Q2 _ eq_refl). unfold seq16_next. lia.
+           ++ Show. admit.
+Admitted.
